@@ -138,6 +138,112 @@ let run_case k line =
         let rec prefix a b = match a, b with [], _ -> true | x :: a', y :: b' -> x = y && prefix a' b' | _ -> false in
         if not (prefix ent sub) then Printf.printf "%d ORACLE FAIL model-prefix c%d\n" k c) clients
 
+(* ---------------------------------------------------------------- stage 2: trace acceptance
+   TPOOL_MODE=replay: the case line is  n=<max>|<event>;<event>;...  -- the pool events harness/tpool_sched_h.cpp observed
+   while the real pool ran under the controlled scheduler.  Each must be an enabled transition of the LTS from the current
+   state; after the critical-section events the model's protected state is printed (the harness printed the real one). *)
+let dump_replay (s : st) =
+  let tab f l = String.concat "," (List.map f l) in
+  let ths = List.sort compare (List.map ni (s.s_avail @ s.s_active)) in
+  let th t =
+    let h = thr_of s (nat_of_int t) in
+    let shown = match h.th_client with
+      | Some c when h.th_queue <> [] || h.th_running -> string_of_int (ni c)
+      | _ -> "-" in
+    Printf.sprintf "%d:%s:%s" t shown (msgs h.th_queue) in
+  Printf.sprintf "sh%d n%d av[%s] ac[%s] rg[%s] pe[%s] de[%s] wa[%s] th[%s]%s"
+    (if s.s_shut then 1 else 0) (ni s.s_ctr) (ints s.s_avail) (ints s.s_active)
+    (tab (fun (c, h) -> Printf.sprintf "%d:%d" (ni c) (if h then 1 else 0)) s.s_reg)
+    (tab (fun (c, q) -> Printf.sprintf "%d:%s" (ni c) (msgs q)) s.s_pend)
+    (tab (fun (c, q) -> Printf.sprintf "%d:%s" (ni c) (msgs q)) s.s_defer)
+    (ints s.s_wait)
+    (String.concat "," (List.map th ths))
+    (if s.s_bad then " MASSERT" else "")
+
+let res_text = function SendOk -> "ok" | SendBadObject -> "badobj" | SendBadArgument -> "badarg"
+
+let replay_case k line =
+  match String.index_opt line '|' with
+  | None -> Printf.printf "%d bad-case\n" k
+  | Some p ->
+    let head = String.sub line 0 p and body = String.sub line (p+1) (String.length line - p - 1) in
+    let n = ref 1 in
+    List.iter (fun h -> let l = String.length h in
+                if l >= 2 && String.sub h 0 2 = "n=" then n := int_of_string (String.sub h 2 (l-2)))
+      (String.split_on_char ',' head);
+    let s = ref (init (nat_of_int !n)) in
+    let all = ref [] in
+    let sent = Hashtbl.create 16 in     (* (c, m) -> result of the submission already applied at its critical section *)
+    let toks = List.filter (fun x -> x <> "") (String.split_on_char ';' body) in
+    let apply l = let evs = ref [] in let ok = try_label s evs l in all := !all @ !evs; (ok, !evs) in
+    List.iteri (fun i tok ->
+        let out =
+          match String.split_on_char '.' tok with
+          | ["R"; c] -> let (ok, _) = apply (LRegister (nat_of_int (int_of_string c))) in
+            if ok then tok ^ " " ^ dump_replay !s else tok ^ " NOT-ENABLED"
+          | ["S"; c; m] ->
+            let (ok, evs) = apply (LSubmit (nat_of_int (int_of_string c), nat_of_int (int_of_string m))) in
+            List.iter (function ESubmit (_, _, r) -> Hashtbl.replace sent (c, m) r | _ -> ()) evs;
+            if ok then tok ^ " " ^ dump_replay !s else tok ^ " NOT-ENABLED"
+          | ["D"; c; m; _] ->
+            let r = match Hashtbl.find_opt sent (c, m) with
+              | Some r -> Some r
+              | None ->     (* no critical section was seen: the client-side wrapper answered (B_BAD_OBJECT) *)
+                let (_, evs) = apply (LSubmit (nat_of_int (int_of_string c), nat_of_int (int_of_string m))) in
+                List.fold_left (fun acc e -> match e with ESubmit (_, _, r) -> Some r | _ -> acc) None evs in
+            Printf.sprintf "D.%s.%s.%s" c m (match r with Some r -> res_text r | None -> "NOT-ENABLED")
+          | ["U"; c] ->
+            let cn = nat_of_int (int_of_string c) in
+            let ok =
+              match tget cn !s.s_unreg with
+              | None -> fst (apply (LUnregBegin cn))
+              | Some (UWaiting true) -> fst (apply (LUnregWake cn)) && fst (apply (LUnregEnd cn))
+              | Some UFinal -> fst (apply (LUnregEnd cn))
+              | Some (UWaiting false) -> false in      (* the real Wait() returned without a notification *)
+            if ok then tok ^ " " ^ dump_replay !s else tok ^ " NOT-ENABLED"
+          | ["X"] ->
+            let rec go fuel =
+              if fuel = 0 then false
+              else if fst (apply LShutBegin) then true
+              else if fst (apply LShutSwap) then true
+              else if fst (apply LShutEnd) then true
+              else if fst (apply LShutJoin) then go (fuel - 1)    (* the joins that returned before this section *)
+              else false in
+            if go 64 then tok ^ " " ^ dump_replay !s else tok ^ " NOT-ENABLED"
+          | ["F"; t] -> let (ok, _) = apply (LFinish (nat_of_int (int_of_string t))) in
+            if ok then tok ^ " " ^ dump_replay !s else tok ^ " NOT-ENABLED"
+          | ["E"; _; _; t; _] ->
+            let (ok, evs) = apply (LEnter (nat_of_int (int_of_string t))) in
+            (match ok, evs with
+             | true, [EEnter (c, m, t', l)] -> Printf.sprintf "E.%d.%d.%d.%d" (ni c) (ni m) (ni t') (ni l)
+             | _ -> "E NOT-ENABLED")
+          | ["Z"; _; _; t] ->
+            let (ok, evs) = apply (LExit (nat_of_int (int_of_string t))) in
+            (match ok, evs with
+             | true, [EExit (c, m, t')] -> Printf.sprintf "Z.%d.%d.%d" (ni c) (ni m) (ni t')
+             | _ -> "Z NOT-ENABLED")
+          | ["Q"; c] ->
+            (match tget (nat_of_int (int_of_string c)) !s.s_unreg with None -> tok | Some _ -> tok ^ " STILL-UNREGISTERING")
+          | ["Y"] ->
+            (* Shutdown() returned: whatever is left of it in the model (the last joins, the final section has been seen) *)
+            (match !s.s_sd with SdDone -> tok | _ -> tok ^ " NOT-DONE")
+          | _ -> tok ^ " ?" in
+        Printf.printf "%d EV %d %s\n" k i out) toks;
+    let clients = List.sort_uniq compare
+        (List.filter_map (function ESubmit (c, _, SendOk) -> Some (ni c) | EEnter (c, _, _, _) -> Some (ni c) | _ -> None) !all) in
+    let per c = msgs (exited !all (nat_of_int c)) in
+    Printf.printf "%d END %s\n" k (String.concat " " (List.map (fun c -> Printf.sprintf "%d:[%s]" c (per c)) clients));
+    List.iter (fun c ->
+        let cn = nat_of_int c in
+        if not (serial !all cn) then Printf.printf "%d ORACLE FAIL model-serial c%d\n" k c) clients
+
 let () =
   let lines = Ocommon.read_lines () in
-  List.iteri (fun k l -> (try run_case k l with e -> Printf.printf "%d driver-exception %s\n" k (Printexc.to_string e)); flush stdout) lines
+  let replay = (try Sys.getenv "TPOOL_MODE" = "replay" with Not_found -> false) in
+  List.iteri (fun k l ->
+      (try
+         if replay then replay_case k l
+         else if String.length l >= 6 && String.sub l 0 6 = "sched," then Printf.printf "%d sched-case\n" k
+         else run_case k l
+       with e -> Printf.printf "%d driver-exception %s\n" k (Printexc.to_string e));
+      flush stdout) lines
